@@ -74,7 +74,10 @@ type verifServer struct {
 	gate    *verifGate    // non-nil: EVAL/EVALSHA wait for each other (slow server under concurrent callers), then run
 	cut     func()        // non-nil: called once when the next counting command (EVAL, INCR...) reaches the server
 	healMax time.Duration
-	pending bool // a request ran since the monitors were last given time (fallback of verifHeal)
+	hold    chan struct{} // non-nil: the FIRST script call is parked on it and then answered with an error
+	parked  chan struct{} // closed when that call has arrived
+	noise   int           // errors made by verifNoise in the current case
+	pending bool          // a request ran since the monitors were last given time (fallback of verifHeal)
 }
 
 // verifGate holds arriving script calls back until want of them are parked (or 300 ms have passed since
@@ -105,7 +108,9 @@ func (v *verifServer) apply() {
 	}
 	evalUp, pingUp := v.evalUp, v.pingUp
 	hang, slow, gate, cut := v.hang, v.slow, v.gate, v.cut
-	if evalUp && pingUp && hang == nil && slow == nil && gate == nil && cut == nil {
+	hold, parked := v.hold, v.parked
+	var holdOnce sync.Once
+	if evalUp && pingUp && hang == nil && slow == nil && gate == nil && cut == nil && hold == nil {
 		v.s.Server().SetPreHook(nil)
 		return
 	}
@@ -116,6 +121,16 @@ func (v *verifServer) apply() {
 		}
 		if gate != nil && (cmd == "EVAL" || cmd == "EVALSHA") {
 			gate.arrive()
+		}
+		if hold != nil && (cmd == "EVAL" || cmd == "EVALSHA") {
+			first := false
+			holdOnce.Do(func() { first = true })
+			if first {
+				close(parked)
+				<-hold // the call entered a server that turns sick and fails late
+				c.WriteError("ERR verif outage")
+				return true
+			}
 		}
 		if hang != nil {
 			<-hang // the server has accepted the command and stays silent
@@ -242,6 +257,35 @@ func verifEntry(s *miniredis.Miniredis, key string) []int64 {
 	return []int64{1, val, int64(s.TTL(key) / time.Millisecond)}
 }
 
+// verifNoise is another user of the same Redis address: its own *redis.Redis handle piles up n errors
+// the wrapper does not accept (WRONGTYPE: INCR on a list). Handles do not share their breakers, so the
+// limiters' handles must not notice.
+func verifNoise(v *verifServer, n int) {
+	other := redis.New(v.addr)
+	_, _ = v.s.Lpush("verif:noise", "x")
+	for i := 0; i < n; i++ {
+		_, _ = other.Incr("verif:noise")
+	}
+	v.noise += n
+}
+
+// verifWash runs after a case that made noise: enough successful calls through yet another handle to
+// outweigh the errors in whatever might be shared per address, so that the NEXT case (and a replay of it
+// alone) does not depend on this one. On a tree where handles share nothing it changes nothing.
+func verifWash(v *verifServer) {
+	if v.noise == 0 {
+		return
+	}
+	other := redis.New(v.addr)
+	need := 2*v.noise + 20
+	for i, ok := 0, 0; i < 4000 && ok < need; i++ {
+		if _, err := other.Exists("verif:wash"); err == nil {
+			ok++
+		}
+	}
+	v.noise = 0
+}
+
 func verifPeriod(v *verifServer, c verifCase) any {
 	prefix := fmt.Sprintf("p%d:", v.caseSeq)
 	lims := make([]*PeriodLimit, len(c.Lims))
@@ -263,12 +307,39 @@ func verifPeriod(v *verifServer, c verifCase) any {
 	}
 	v.s.SetTime(time.UnixMilli(clock))
 	out := make([]map[string]any, 0, len(c.Ops))
+	// the window length a take asks for, from the case's period/align and the wall clock (not from the limiter)
+	calcW := func(l verifLim, unix, off int64) int64 {
+		if !l.Align || l.Period <= 0 {
+			return int64(l.Period)
+		}
+		return int64(l.Period) - (unix+off)%int64(l.Period)
+	}
+	lastW := map[string]int64{} // per key: the length of the window its last opening take asked for
+	step := func(ms int64) {
+		clock += ms
+		v.s.SetTime(time.UnixMilli(clock))
+		v.s.FastForward(time.Duration(ms) * time.Millisecond)
+	}
 	for _, op := range c.Ops {
 		switch op.Op {
 		case "tick":
-			clock += op.Ms
-			v.s.SetTime(time.UnixMilli(clock))
-			v.s.FastForward(time.Duration(op.Ms) * time.Millisecond)
+			step(op.Ms)
+			out = append(out, map[string]any{})
+		case "sleep":
+			// the callers' wall clock really advances (aligned windows are cut on it); the server follows
+			time.Sleep(time.Duration(op.Ms) * time.Millisecond)
+			step(op.Ms)
+			out = append(out, map[string]any{})
+		case "tickw":
+			// step the server to the end of the window the key's last opening take asked for, plus op.Ms
+			ms := lastW[pfx[op.Lim]+"k"+strconv.Itoa(op.Key)]*1000 + op.Ms
+			if ms < 0 {
+				ms = 0
+			}
+			step(ms)
+			out = append(out, map[string]any{"ms": ms})
+		case "noise":
+			verifNoise(v, op.N)
 			out = append(out, map[string]any{})
 		case "replace":
 			v.replace(true, true, time.UnixMilli(clock))
@@ -308,7 +379,15 @@ func verifPeriod(v *verifServer, c verifCase) any {
 			} else if err != nil {
 				ec = 1
 			}
-			out = append(out, map[string]any{"code": code, "err": ec, "ent": verifEntry(v.s, pfx[op.Lim]+key),
+			ent := verifEntry(v.s, pfx[op.Lim]+key)
+			if ent[0] == 1 && ent[1] == 1 {
+				w0, w1 := calcW(c.Lims[op.Lim], u0, int64(off)), calcW(c.Lims[op.Lim], u1, int64(off))
+				if w0 != w1 && ent[2] == w1*1000 {
+					w0 = w1 // a second boundary passed during the call and the limiter saw the later second
+				}
+				lastW[pfx[op.Lim]+key] = w0
+			}
+			out = append(out, map[string]any{"code": code, "err": ec, "ent": ent,
 				"exp": []int64{u0, int64(off), 0, u1, 0}})
 		case "conc":
 			pl := lims[op.Lim]
@@ -494,6 +573,52 @@ func verifToken(v *verifServer, c verifCase) any {
 			v.s.SetTime(time.UnixMilli(clock))
 			v.s.FastForward(time.Duration(op.Ms) * time.Millisecond)
 			out = append(out, snap(map[string]any{}))
+		case "noise":
+			verifNoise(v, op.N)
+			out = append(out, snap(map[string]any{}))
+		case "race":
+			// Recovery race: request A enters while the limiter is alive and fails LATE, reaching
+			// startMonitor after the monitor (started by request B's failure) has stored alive=1 but before
+			// it has reset monitorStarted. Forced by holding rescueLock: A queues on it first, then the
+			// monitor's deferred function.
+			p := probes[op.Inst]
+			if p == nil || v.closed {
+				out = append(out, snap(map[string]any{"skipped": true}))
+				break
+			}
+			tl := tls[op.Inst]
+			now := time.UnixMilli(clock)
+			v.hold, v.parked = make(chan struct{}), make(chan struct{})
+			v.evalUp, v.pingUp = false, false
+			v.apply()
+			resA := make(chan bool, 1)
+			go func() { resA <- tl.AllowN(now, op.N) }()
+			select {
+			case <-v.parked:
+			case <-time.After(2 * time.Second):
+				// A never reached the server (the limiter was not on Redis): nothing to race with
+				v.hold, v.parked = nil, nil
+				v.evalUp, v.pingUp = true, true
+				v.apply()
+				<-resA
+				out = append(out, snap(map[string]any{"skipped": true}))
+				continue
+			}
+			okB := tl.AllowN(now, op.N) // error reply: starts the monitor
+			p.mu.Lock()
+			close(v.hold)
+			time.Sleep(30 * time.Millisecond) // A fails and queues on rescueLock inside startMonitor
+			v.hold, v.parked = nil, nil
+			v.evalUp, v.pingUp = true, true
+			v.apply()
+			for i := 0; i < 1500 && atomic.LoadUint32(p.alive) == 0; i++ {
+				time.Sleep(time.Millisecond) // the monitor's next ping succeeds and stores alive=1
+			}
+			time.Sleep(10 * time.Millisecond) // its deferred function queues on rescueLock behind A
+			p.mu.Unlock()
+			okA := <-resA
+			time.Sleep(5 * time.Millisecond)
+			out = append(out, snap(map[string]any{"okA": okA, "okB": okB}))
 		case "sleep":
 			// a clock step that also takes the same REAL time: the monitor goroutine (real 100 ms
 			// ticker) keeps pinging meanwhile, e.g. all through a long outage
@@ -551,6 +676,7 @@ func verifToken(v *verifServer, c verifCase) any {
 			}
 			out = append(out, snap(map[string]any{"granted": granted}))
 		case "fault":
+			v.noise += 10 // (the errors of an outage are washed out like noise after the case, see verifWash)
 			if op.Hang && !op.Eval && !op.Ping {
 				v.set(false, false, false)
 				v.setHang(true)
@@ -600,6 +726,7 @@ func TestVerifDriver(t *testing.T) {
 		redis.GetScriptCache().Store(make(redis.Map))
 		defer func() {
 			v.set(true, true, false)
+			verifWash(v)
 		}()
 		switch c.Kind {
 		case "period":
